@@ -166,6 +166,13 @@ func (vm *VM) convertPanic(msg any) error {
 		case runtimeError:
 			break
 		case runtime.Error:
+			// The close and delete builtins are deferred as native functions.
+			if op == OpReturn {
+				switch s := msg.Error(); {
+				case s == "close of closed channel", s == "close of nil channel", isUnhashableError(s):
+					return vm.newPanic(runtimeError(s))
+				}
+			}
 			// TODO: check env.
 			break
 		default:
